@@ -19,8 +19,13 @@
       _generate_input_types(); _generate_result_types(); _generate_fragments(); _copy_files()
       [custom operations files]; _generate_client(); _generate_enums(); _generate_init()
 
-  Third-party behaviour is an ORACLE, i.e. an input of the model: which files graphql-core's
-  `parse` accepts, whether `build_ast_schema(..., assume_valid=True)` raises, how many errors
+  The loading of `schema_path` / `queries_path` (file or directory tree, sorted walk, suffix filter,
+  per-file syntax check, concatenation, the unguarded second `parse`) is Model/SourceLoad.lean; the
+  resolution of the `plugins` list (`plugins/explorer.py`) is modelled here over what the import
+  system answers.
+
+  Third-party behaviour is an ORACLE, i.e. an input of the model: which texts graphql-core's
+  `parse` accepts (`Source.parses`), whether `build_ast_schema(..., assume_valid=True)` raises, how many errors
   `validate_schema` would report, what `validate(schema, document, rules)` reports, what
   ResultTypesGenerator raises for an operation/fragment, whether black refuses an emitted module.
   What is modelled (and proved) is WHETHER AND WHEN ariadne-codegen consults them and what has
@@ -29,9 +34,10 @@
   Core Lean only.
 -/
 import AriadneModel.Model.Settings
+import AriadneModel.Model.SourceLoad
 
 namespace Ariadne.Pipeline
-open Ariadne Ariadne.Settings
+open Ariadne Ariadne.Settings Ariadne.SourceLoad
 
 /-- an exception escaping `main.client` / `main.graphql_schema` -/
 inductive PyErr where
@@ -75,11 +81,14 @@ structure Outcome where
 
 /-! ## oracles -/
 
-/-- what `load_graphql_files_from_path` finds: the files in the order they are read (one file, or
-    the sorted `**/*` matches with a graphql suffix) and whether `parse(content)` accepts each -/
+/-- what `schema_path` / `queries_path` points at (a file or a directory tree, Model/SourceLoad.lean)
+    and graphql-core's `parse` as a predicate on texts ("parses on its own") -/
 structure Source where
-  files : List (String × Bool)
-  deriving Repr
+  root : Root
+  parses : String → Bool
+
+/-- the graphql files of the source in reading order: (path, content) -/
+def Source.files (s : Source) : List (String × Content) := filesRead s.root
 
 /-- graphql-core's view of a schema object: the cache `schema._validation_errors`
     (`some n` = a cached list of n errors, `none` = not validated yet) and the number of errors
@@ -107,12 +116,20 @@ structure SchemaOracle where
   trueErrors : Nat := 0                 -- errors validate_schema would find
   hasQuery : Bool := true
   hasMutation : Bool := false
-  deriving Repr
+
+/-- what the import system answers for one configured plugin string -/
+inductive PluginLookup where
+  | module                   -- `importlib.util.find_spec(s)` finds a module: its Plugin subclasses are taken
+  | classOk                  -- no such module; `s = m.c`, `m` imports and `m.c` is a Plugin subclass
+  | noModule                 -- ... `import_module(m)` raises ModuleNotFoundError
+  | noAttribute              -- ... `getattr(module, c)` raises AttributeError
+  | notPlugin                -- ... the object is not a proper Plugin subclass
+  | raises (cls : String)    -- the import system itself raises something else (relative name, broken module)
+  deriving Repr, DecidableEq
 
 structure PluginsOracle where
-  resolve : List (Option String) := []          -- per configured plugin string: `some msg` = PluginImportError(msg)
+  lookup : String → PluginLookup := fun _ => .classOk
   replaces : Option SchemaState := none         -- a process_schema hook returns a different schema object
-  deriving Repr
 
 structure OpInfo where
   name : Option String                 -- `definition.name`
@@ -132,7 +149,6 @@ structure QueriesOracle where
   validationErrors : List String := []     -- messages of validate(schema, document, specified_rules \ NoUnusedFragments)
   ops : List OpInfo := []
   frags : List FragInfo := []
-  deriving Repr
 
 inductive GenStep where
   | inputTypes | resultTypes (file : String) | fragments | copyFile (file : String)
@@ -147,7 +163,7 @@ def GenStep.label : GenStep → String
 
 structure ClientRun where
   env : Env
-  cfg : J
+  cfg : Dict
   schema : SchemaOracle
   plugins : PluginsOracle := {}
   queries : QueriesOracle
@@ -156,12 +172,17 @@ structure ClientRun where
 
 /-! ## phases -/
 
-/-- `read_graphql_file` per file (first file with a syntax error raises InvalidGraphqlSyntax), then
-    `parse(joined)`: the concatenation of accepted documents is accepted unless there is none -/
+def ofLoadErr : LoadErr → PyErr
+  | .invalidSyntax f => .codegen "InvalidGraphqlSyntax" ("Invalid graphql syntax in file " ++ f)
+  | .raw cls => .raw cls
+
+/-- `parse(load_graphql_files_from_path(Path(p)))`: `read_graphql_file` per file in sorted order (the
+    first file that does not parse on its own raises InvalidGraphqlSyntax naming it), then the
+    unguarded `parse` of the concatenation (bare GraphQLSyntaxError) -/
 def loadSource (s : Source) : Except PyErr Unit :=
-  match s.files.find? (fun f => !f.2) with
-  | some f => .error (.codegen "InvalidGraphqlSyntax" ("Invalid graphql syntax in file " ++ f.1))
-  | none => if s.files.isEmpty then .error (.raw "GraphQLSyntaxError") else .ok ()
+  match loadDocument s.parses s.root with
+  | .error e => .error (ofLoadErr e)
+  | .ok _ => .ok ()
 
 /-- `get_graphql_schema_from_path` / `get_graphql_schema_from_url` -/
 def loadSchema (fromPath : Bool) (o : SchemaOracle) : Except PyErr SchemaState := do
@@ -175,11 +196,42 @@ def loadSchema (fromPath : Bool) (o : SchemaOracle) : Except PyErr SchemaState :
   | none => pure { cache := if codeAssumeValid then some 0 else none, trueErrors := o.trueErrors,
                    hasQuery := o.hasQuery, hasMutation := o.hasMutation }
 
+/-- `class_str.rfind(".")` split: `(class_str[:i], class_str[i+1:])`, `none` when there is no dot -/
+def rsplitDot (s : String) : Option (String × String) :=
+  match rfindDot s.toList with
+  | none => none
+  | some i => some (String.ofList (s.toList.take i), String.ofList (s.toList.drop (i + 1)))
+
+/-- one configured plugin string: `is_module_str` / `get_plugins_types_from_module` / `get_plugin_type` -/
+def resolvePlugin (look : String → PluginLookup) (s : String) : Except PyErr Unit :=
+  match look s with
+  | .module => .ok ()
+  | .raises cls => .error (.raw cls)
+  | l =>
+    match rsplitDot s with
+    | none => .error (.codegen "PluginImportError" "Incorrect plugin path. Use an absolute import path.")
+    | some (m, c) =>
+      match l with
+      | .noModule => .error (.codegen "PluginImportError" ("Incorrect plugin module. Cannot import from " ++ m))
+      | .noAttribute => .error (.codegen "PluginImportError" ("Class " ++ c ++ " not found in module " ++ m))
+      | .notPlugin => .error (.codegen "PluginImportError" ("Selected object " ++ s ++ " is not a plugin class."))
+      | _ => .ok ()
+
+/-- `for plugin_str in plugins_strs` over the items Python iterates; `find_spec(x)` on a non-str is an
+    `AttributeError` (`x.startswith`) -/
+def resolvePluginItems (look : String → PluginLookup) : List TV → Except PyErr Unit
+  | [] => .ok ()
+  | .str s :: rest =>
+    match resolvePlugin look s with
+    | .error e => .error e
+    | .ok () => resolvePluginItems look rest
+  | _ :: _ => .error (.raw "AttributeError")
+
 /-- `get_plugins_types(settings.plugins)` -/
-def resolvePlugins (p : PluginsOracle) : Except PyErr Unit :=
-  match p.resolve.findSome? id with
-  | some m => .error (.codegen "PluginImportError" m)
-  | none => .ok ()
+def resolvePlugins (plugins : TV) (p : PluginsOracle) : Except PyErr Unit :=
+  match plugins.pyIter with
+  | none => .error (.raw "TypeError")
+  | some items => resolvePluginItems p.lookup items
 
 /-- `plugin_manager.process_schema(add_mixin_directive_to_schema(schema))` -/
 def processSchema (p : PluginsOracle) (s : SchemaState) : SchemaState := p.replaces.getD s
@@ -224,17 +276,24 @@ def pkgFile (key : String) : String := ((Tables.packageFileNames.find? (·.1 == 
 def isDefaultClientPath (env : Env) (p : String) : Bool :=
   ["async", "asyncOT", "sync", "syncOT"].any (fun k => env.defaultPath k == p)
 
+/-- the items of `files_to_include` as strings (accepted settings: every item Python iterates is a
+    `str` naming a file, `accepted_files_ok` in Properties/C17.lean) -/
+def filesList (s : ClientSettings) : List String :=
+  match s.filesToInclude.pyIter with
+  | some items => items.map TV.pyStr
+  | none => []
+
 /-- `self.files_to_include` when `generate` checks names: user files, base_operation.py when custom
     operations are enabled, exceptions.py when a bundled base client is used -/
 def includedFiles (env : Env) (s : ClientSettings) : List String :=
-  s.filesToInclude.map (fun f => String.ofList (pathName f))
-  ++ (if s.enableCustomOperations then [pkgFile "base_operation"] else [])
-  ++ (if isDefaultClientPath env s.baseClientFilePath then [pkgFile "exceptions"] else [])
+  (filesList s).map (fun f => String.ofList (pathName f))
+  ++ (if s.enableCustomOperations.truthy then [pkgFile "base_operation"] else [])
+  ++ (if isDefaultClientPath env s.baseClientFilePath.pyStr then [pkgFile "exceptions"] else [])
 
 /-- the list `_validate_unique_file_names` builds -/
 def allFileNames (env : Env) (s : ClientSettings) (resultFiles : List String) : List String :=
-  [s.clientFileName ++ ".py", String.ofList (pathName s.baseClientFilePath), pkgFile "base_model",
-   s.enumsModuleName ++ ".py", s.inputTypesModuleName ++ ".py", s.fragmentsModuleName ++ ".py"]
+  [s.clientFileName.pyStr ++ ".py", String.ofList (pathName s.baseClientFilePath.pyStr), pkgFile "base_model",
+   s.enumsModuleName.pyStr ++ ".py", s.inputTypesModuleName.pyStr ++ ".py", s.fragmentsModuleName.pyStr ++ ".py"]
   ++ resultFiles ++ includedFiles env s
 
 def duplicates : List String → List String
@@ -251,19 +310,19 @@ def fragmentsStep (frags : List FragInfo) : Option (Option PyErr) :=
     generator itself before writing) -/
 def plannedSteps (env : Env) (s : ClientSettings) (sch : SchemaState) (resultFiles : List String)
     (frags : List FragInfo) : List (GenStep × String × Option PyErr) :=
-  [(.inputTypes, s.inputTypesModuleName ++ ".py", none)]
+  [(.inputTypes, s.inputTypesModuleName.pyStr ++ ".py", none)]
   ++ resultFiles.map (fun f => (.resultTypes f, f, none))
   ++ (match fragmentsStep frags with
       | none => []
-      | some err => [(.fragments, s.fragmentsModuleName ++ ".py", err)])
-  ++ ((includedFiles env s ++ [String.ofList (pathName s.baseClientFilePath), pkgFile "base_model"]).map
+      | some err => [(.fragments, s.fragmentsModuleName.pyStr ++ ".py", err)])
+  ++ ((includedFiles env s ++ [String.ofList (pathName s.baseClientFilePath.pyStr), pkgFile "base_model"]).map
         (fun f => (.copyFile f, f, none)))
-  ++ (if s.enableCustomOperations then
+  ++ (if s.enableCustomOperations.truthy then
         [(.customTyping, "custom_typing_fields.py", none), (.customFields, "custom_fields.py", none)]
         ++ (if sch.hasQuery then [(.customQueries, "custom_queries.py", none)] else [])
         ++ (if sch.hasMutation then [(.customMutations, "custom_mutations.py", none)] else [])
       else [])
-  ++ [(.client, s.clientFileName ++ ".py", none), (.enums, s.enumsModuleName ++ ".py", none),
+  ++ [(.client, s.clientFileName.pyStr ++ ".py", none), (.enums, s.enumsModuleName.pyStr ++ ".py", none),
       (.init, "__init__.py", none)]
 
 /-- run the steps in order: a step either raises (nothing more is written) or writes its file -/
@@ -295,22 +354,22 @@ def prepare (r : ClientRun) : Except (Phase × PyErr) Prepared := do
   let s ← match (getClientSettings r.env r.cfg).result with
     | .error e => throw (Phase.settings, PyErr.config e)
     | .ok s => pure s
-  let sch ← match loadSchema (s.schemaPath != "") r.schema with
+  let sch ← match loadSchema s.schemaPath.truthy r.schema with
     | .error e => throw (Phase.loadSchema, e)
     | .ok sch => pure sch
-  match resolvePlugins r.plugins with
+  match resolvePlugins s.plugins r.plugins with
     | .error e => throw (Phase.plugins, e)
     | .ok () => pure ()
   let sch := processSchema r.plugins sch
   match assertValid sch with
     | .error e => throw (Phase.assertValid, e)
     | .ok () => pure ()
-  let ops ← if s.queriesPath != "" then
+  let ops ← if s.queriesPath.truthy then
       match loadQueries r.queries with
       | .error e => throw (Phase.loadQueries, e)
       | .ok () => pure r.queries.ops
     else pure []
-  let files ← match addOperations s.asyncClient ops [] with
+  let files ← match addOperations s.asyncClient.truthy ops [] with
     | .error e => throw (Phase.addOperation, e)
     | .ok fs => pure fs
   pure { settings := s, schema := sch, resultFiles := files }
@@ -323,7 +382,7 @@ def generate (r : ClientRun) (p : Prepared) : Outcome :=
       log := [] }
   else
     let log0 : List Effect := if r.pkgDirExists then [] else [.mkdir]
-    let frags := if p.settings.queriesPath != "" then r.queries.frags else []
+    let frags := if p.settings.queriesPath.truthy then r.queries.frags else []
     match runSteps r.codeError (plannedSteps r.env p.settings p.schema p.resultFiles frags) log0 with
     | (some e, log) => { result := .error (.generateWrite, e), log := log }
     | (none, log) =>
@@ -339,7 +398,7 @@ def client (r : ClientRun) : Outcome :=
 
 structure SchemaRun where
   env : Env
-  cfg : J
+  cfg : Dict
   schema : SchemaOracle
   plugins : PluginsOracle := {}
   writeError : Option PyErr := none     -- raised while generating the text / by `Path.write_text` (e.g. missing parent directory)
@@ -349,10 +408,10 @@ def graphqlSchema (r : SchemaRun) : Outcome :=
   match (getSchemaSettings r.env r.cfg).result with
   | .error e => { result := .error (.settings, .config e), log := [] }
   | .ok s =>
-    match loadSchema (s.schemaPath != "") r.schema with
+    match loadSchema s.schemaPath.truthy r.schema with
     | .error e => { result := .error (.loadSchema, e), log := [] }
     | .ok sch =>
-      match resolvePlugins r.plugins with
+      match resolvePlugins s.plugins r.plugins with
       | .error e => { result := .error (.plugins, e), log := [] }
       | .ok () =>
         match assertValid (processSchema r.plugins sch) with
@@ -360,7 +419,7 @@ def graphqlSchema (r : SchemaRun) : Outcome :=
         | .ok () =>
           match r.writeError with
           | some e => { result := .error (.writeSchema, e), log := [] }
-          | none => { result := .ok [s.targetFilePath], log := [.write s.targetFilePath] }
+          | none => { result := .ok [s.targetFilePath.pyStr], log := [.write s.targetFilePath.pyStr] }
 
 /-! ## trigger predicates of the known findings (decidable; twins of harness/c17.py `triggers`) -/
 
@@ -368,9 +427,9 @@ def graphqlSchema (r : SchemaRun) : Outcome :=
    gone, `fragments_module_name` is check 16 of `ClientSettings.__post_init__` now.) -/
 
 /-- C17-F7: the base client class check is a substring test -/
-def trigClassSubstring (env : Env) (cfg : J) : Bool :=
+def trigClassSubstring (env : Env) (cfg : Dict) : Bool :=
   match (getClientSettings env cfg).result with
-  | .ok s => !classDeclared env s.baseClientFilePath s.baseClientName
+  | .ok s => !classDeclared env s.baseClientFilePath.pyStr s.baseClientName.pyStr
   | .error _ => false
 
 /-- C17-F3: the schema is invalid but was built with assume_valid (and no plugin replaced it) -/
@@ -389,8 +448,40 @@ def trigFragmentGenError (q : QueriesOracle) : Bool :=
 /-- C17-F6: a schema / queries directory without any graphql file -/
 def trigNoGraphqlFiles (r : ClientRun) : Bool :=
   match (getClientSettings r.env r.cfg).result with
-  | .ok s => (s.schemaPath != "" && r.schema.src.files.isEmpty) || (s.queriesPath != "" && r.queries.src.files.isEmpty)
+  | .ok s => (s.schemaPath.truthy && r.schema.src.files.isEmpty) || (s.queriesPath.truthy && r.queries.src.files.isEmpty)
   | .error _ => false
+
+/-- every graphql file of the source is readable text that parses on its own -/
+def allFilesParse (s : Source) : Bool :=
+  s.files.all fun pc => match pc.2 with
+    | .text t => s.parses t
+    | .unreadable _ => false
+
+/-- the files each parse on their own, there is at least one, and their concatenation does not parse -/
+def joinedBroken (s : Source) : Bool :=
+  !s.files.isEmpty && allFilesParse s &&
+    (match loadText s.parses s.root with
+     | .ok t => !s.parses t
+     | .error _ => false)
+
+/-- C17-F9: graphql files that each parse on their own but whose concatenation does not (the second,
+    unguarded `parse`) -/
+def trigJoinedNotParsable (r : ClientRun) : Bool :=
+  match (getClientSettings r.env r.cfg).result with
+  | .ok s => (s.schemaPath.truthy && joinedBroken r.schema.src) || (s.queriesPath.truthy && joinedBroken r.queries.src)
+  | .error _ => false
+
+/-- C17-F8: an option value of a kind the option is not documented to take makes the settings code die
+    with a bare Python exception (`AttributeError` / `KeyError` / `TypeError`) -/
+def trigIllTypedInternal (env : Env) (cfg : Dict) : Bool :=
+  match (getClientSettings env cfg).result with
+  | .error (.internal _) => true
+  | _ => false
+
+def trigIllTypedInternalS (env : Env) (cfg : Dict) : Bool :=
+  match (getSchemaSettings env cfg).result with
+  | .error (.internal _) => true
+  | _ => false
 
 def clientTriggers (r : ClientRun) : List String :=
   (if trigInvalidSchemaAssumed r.schema r.plugins then ["invalidSchemaAssumedValid"] else [])
@@ -398,12 +489,16 @@ def clientTriggers (r : ClientRun) : List String :=
   ++ (if trigFragmentGenError r.queries then ["fragmentGenErrorAfterWrites"] else [])
   ++ (if trigNoGraphqlFiles r then ["noGraphqlFiles"] else [])
   ++ (if trigClassSubstring r.env r.cfg then ["baseClassSubstring"] else [])
+  ++ (if trigIllTypedInternal r.env r.cfg then ["illTypedOptionInternal"] else [])
+  ++ (if trigJoinedNotParsable r then ["joinedNotParsable"] else [])
 
 def schemaTriggers (r : SchemaRun) : List String :=
   (if trigInvalidSchemaAssumed r.schema r.plugins then ["invalidSchemaAssumedValid"] else [])
   ++ (if trigSchemaBuildTypeError r.schema then ["schemaBuildTypeError"] else [])
   ++ (match (getSchemaSettings r.env r.cfg).result with
-      | .ok s => if s.schemaPath != "" && r.schema.src.files.isEmpty then ["noGraphqlFiles"] else []
+      | .ok s => (if s.schemaPath.truthy && r.schema.src.files.isEmpty then ["noGraphqlFiles"] else [])
+                 ++ (if s.schemaPath.truthy && joinedBroken r.schema.src then ["joinedNotParsable"] else [])
       | .error _ => [])
+  ++ (if trigIllTypedInternalS r.env r.cfg then ["illTypedOptionInternal"] else [])
 
 end Ariadne.Pipeline
